@@ -15,6 +15,7 @@ import (
 	"encoding/json"
 	"errors"
 	"fmt"
+	"io"
 	"net"
 	"os"
 	"reflect"
@@ -140,7 +141,7 @@ func IsRuntimeError(v interface{}) bool { _, ok := v.(runtime.Error); return ok 
 func Self() int { return 0 }
 
 // Symbolic reports whether the harness runs under the symbolic executor.
-func Symbolic() bool { return false }
+func Symbolic() bool { return false } // the executor returns true
 
 // Now returns the symbolic clock in nanoseconds (executor only).
 func Now() int64 { return time.Now().UnixNano() }
@@ -468,3 +469,41 @@ func OnceDo(o *sync.Once, f func()) {
 		}
 	}
 }
+
+// ---------------------------------------------------------------------------
+// encoding/json contract stub (executor only; see DESIGN.md C16)
+
+var errJSON = errors.New("vrt: frame does not begin with one complete valid JSON object")
+
+// jsonParse is intercepted by the executor: an uninterpreted parser returning an opaque object that
+// remembers exactly which bytes and flags it was given, and an arbitrary verdict.
+func jsonParse(data []byte, useNumber, disallow bool) (map[string]interface{}, bool) {
+	return nil, false
+}
+
+// jsonDecode is what the executor runs in place of (*json.Decoder).Decode.
+func jsonDecode(r io.Reader, useNumber, disallow bool, v interface{}) error {
+	var data []byte
+	buf := make([]byte, 512)
+	for i := 0; i < 16; i++ {
+		n, err := r.Read(buf)
+		data = append(data, buf[:n]...)
+		if err != nil {
+			break
+		}
+	}
+	obj, ok := jsonParse(data, useNumber, disallow)
+	if !ok {
+		return errJSON
+	}
+	if p, isMap := v.(*map[string]interface{}); isMap {
+		*p = obj
+	}
+	return nil
+}
+
+// JSONLastMarshal returns the bytes the json.Marshal stub produced last (executor only).
+func JSONLastMarshal() []byte { return nil }
+
+// JSONLastArg returns the value json.Marshal was last called with (executor only).
+func JSONLastArg() interface{} { return nil }
